@@ -256,6 +256,9 @@ def perm_family():
         [["input", ["a", "b"]], ["output", ["y"]], ["wire", ["w", "v"]], ["gate", "and", [["U0", ["w", "a", "b"]]]], ["gate", "nor", [["U1", ["v", "w", "a"]]]],
          ["gate", "xnor", [["U2", ["y", "v", "w", "b"]]]]],
         [["input", ["a"]], ["output", ["a_o", "y"]], ["assign", [["a_o", ("id", "a")]]], ["gate", "not", [["U0", ["y", "a_o"]]]]],
+        # repeated operands: parity counts them, and/or do not
+        [["input", ["a", "b"]], ["output", ["y", "z"]], ["gate", "xor", [["U0", ["y", "a", "a"]]]], ["gate", "xnor", [["U1", ["z", "a", "b", "a"]]]]],
+        [["input", ["a", "b"]], ["output", ["y", "z"]], ["gate", "and", [["U0", ["y", "a", "a"]]]], ["gate", "xor", [["U1", ["z", "b", "b", "b"]]]]],
     ]
     for items in fam:
         ports = []
@@ -322,7 +325,11 @@ def layout_programs():
     m2 = {"name": "top", "ports": ["a", "y"],
           "items": [["input", ["a"]], ["output", ["y"]], ["wire", ["o1"]], ["bb", "two", "t0", [["i", "a"], ["o1", "o1"], ["o2", None]]],
                     ["gate", "not", [["U0", ["y", "o1"]]]]]}
-    return [m1, m2]
+    # nets whose names END in a declaration keyword
+    m3 = {"name": "top", "ports": ["d_input", "b", "q_output"],
+          "items": [["input", ["d_input", "b"]], ["output", ["q_output"]], ["wire", ["w_wire"]],
+                    ["gate", "and", [["U0", ["w_wire", "d_input", "b"]]]], ["gate", "not", [["U1", ["q_output", "w_wire"]]]]]}
+    return [m1, m2, m3]
 
 
 def ws_layouts(toks, max_dev):
